@@ -291,11 +291,12 @@ Definition tgt_level (level : Z) : Z := if level =? LNew then LNew else LPostfix
    last branch of an unparenthesised conditional, and dropped everywhere else (parentheses, unary
    operands, member/call targets, index, arguments, the middle branch of a conditional). *)
 Definition is_in (e : expr) : bool := match e with EBin o _ _ => op_eqb o BIn | _ => false end.
-(* ss = "p.stmtStart == len(p.js)": nothing has been printed since the start of an expression statement.
+(* ss = "p.stmtStart == len(p.js) || p.forInitStart == len(p.js)": nothing has been printed since the start of
+   an expression statement or of the expression that opens the head of a for loop (fix 177d11f).
    The flag reaches the leftmost operand as long as nothing (no parenthesis, no prefix operator) is
-   printed in front of it.  Its only effect on the fragment (fix ac301ad): an index access on the
-   identifier "let" in that position is printed as "(let)[...]", because an expression statement
-   cannot start with "let [". *)
+   printed in front of it.  Its only effect on the fragment (fixes ac301ad, 177d11f): an index access on
+   the identifier "let" in that position is printed as "(let)[...]", because neither an expression
+   statement nor the head of a for loop can start with "let [". *)
 Definition is_let (e : expr) : bool := match e with EId s => zlist_eqb s [108; 101; 116] | _ => false end.
 Fixpoint print_items (mw : bool) (fi ss : bool) (level : Z) (e : expr) : list item :=
   match e with
@@ -343,5 +344,5 @@ Fixpoint print_items (mw : bool) (fi ss : bool) (level : Z) (e : expr) : list it
       print_items mw false false LComma x ++ (match rest with ACons _ _ => [IOp BComma] ++ print_items mw false false LComma rest | _ => [] end)
   end.
 
-(* ss = true for an expression statement, false for the initialiser of a for loop *)
+(* ss = true for an expression statement and for the expression that opens the head of a for loop *)
 Definition print_expr (mw fi ss : bool) (e : expr) : list Z := render mw st0 (print_items mw fi ss LLowest e).
